@@ -254,7 +254,8 @@ pub fn run(ctx: &mut Ctx) {
         let (p, tag) = degenerate(&mut rng);
         let mut st = gen::random_settings(&mut rng, true);
         st.max_iter = *rng.choose(&[0, 1, 2, 3, 4, 5, 200, 200, 200]);
-        st.time_limit = *rng.choose(&[0.0, 1e-9, f64::INFINITY, f64::INFINITY, f64::INFINITY, 1e-4]);
+        // (huge finite limits are what callers pass for "no limit" when they cannot pass infinity)
+        st.time_limit = *rng.choose(&[0.0, 1e-9, f64::INFINITY, f64::INFINITY, f64::INFINITY, 1e-4, 1e20, f64::MAX, 5e-324]);
         ctx.bump(&format!("shape_{tag}"));
         ctx.nontrivial_hash(p.hash() ^ case);
         check_run(ctx, wl, case, &p, &st, tag);
